@@ -2369,7 +2369,7 @@ class PropertyStates(Choice):
         , Element('accessCredentialDisable', AccessCredentialDisable, 33)
         , Element('authenticationStatus', AuthenticationStatus, 34)
         , Element('backupState', BackupState, 36)
-        , Element('writeStatus', WriteStatus, 370)
+        , Element('writeStatus', WriteStatus, 37)
         , Element('lightingInProgress', LightingInProgress, 38)
         , Element('lightingOperation', LightingOperation, 39)
         , Element('lightingTransition', LightingTransition, 40)
